@@ -21,7 +21,7 @@ pub mod models { pub use crate::*; }   // crate::models::X paths in extracted te
 
 verus! {
 
-broadcast use {vstd::std_specs::hash::group_hash_axioms, vpre::group_string_keys, vfmt::group_disp, vstr::axiom_pat_char};
+broadcast use {vstd::std_specs::hash::group_hash_axioms, vpre::group_string_keys, vfmt::group_disp, vstr::axiom_pat_char, vstr::axiom_pat_str, vstr::axiom_pat_char_not_str};
 
 //@ FORMAT-MACRO
 
@@ -35,8 +35,52 @@ broadcast use {vstd::std_specs::hash::group_hash_axioms, vpre::group_string_keys
 pub uninterp spec fn rule_field_other(c: RenameRule, s: Seq<char>) -> Seq<char>;
 pub uninterp spec fn rule_variant(c: RenameRule, s: Seq<char>) -> Seq<char>;
 
+// char::to_ascii_uppercase / to_ascii_lowercase: only the facts used below are stated
+pub uninterp spec fn upper(c: char) -> char;
+pub uninterp spec fn lower(c: char) -> char;
+pub open spec fn ascii_alnum(c: char) -> bool {
+    ('a' <= c && c <= 'z') || ('A' <= c && c <= 'Z') || ('0' <= c && c <= '9')
+}
+pub open spec fn ascii_digit(c: char) -> bool { '0' <= c && c <= '9' }
+pub broadcast axiom fn axiom_ascii_case(c: char)
+    ensures
+        #![trigger upper(c)] #![trigger lower(c)]
+        ascii_alnum(c) ==> ascii_alnum(upper(c)) && ascii_alnum(lower(c)),
+        ascii_digit(c) ==> upper(c) == c && lower(c) == c,
+        ascii_alnum(c) && !ascii_digit(c) ==> !ascii_digit(upper(c)) && !ascii_digit(lower(c)),
+        !ascii_alnum(c) ==> upper(c) == c && lower(c) == c;
+
+/// apply_to_field(PascalCase): drop underscores, upper-case the first character and every character after one
+pub open spec fn pascal_from(s: Seq<char>, cap: bool) -> Seq<char>
+    decreases s.len()
+{
+    if s.len() == 0 { Seq::<char>::empty() }
+    else if s[0] == '_' { pascal_from(s.skip(1), true) }
+    else if cap { seq![upper(s[0])] + pascal_from(s.skip(1), false) }
+    else { seq![s[0]] + pascal_from(s.skip(1), false) }
+}
+pub open spec fn pascal_spec(s: Seq<char>) -> Seq<char> { pascal_from(s, true) }
+
+/// apply_to_field(CamelCase) of the dependency = `pascal[..1].to_ascii_lowercase() + &pascal[1..]` — PANICS
+/// unless the PascalCase form is non-empty and starts with a one-byte (ASCII) character
+pub open spec fn camel_safe(s: Seq<char>) -> bool {
+    pascal_spec(s).len() > 0 && (pascal_spec(s)[0] as u32) < 128
+}
+/// char::to_lowercase (Unicode, may yield several characters); ASCII: the one lower-case letter
+pub uninterp spec fn lowercase_seq(c: char) -> Seq<char>;
+pub broadcast axiom fn axiom_lowercase_ascii(c: char)
+    ensures (c as u32) < 128 ==> #[trigger] lowercase_seq(c) == seq![lower(c)];
+
+pub open spec fn lower_first_spec(p: Seq<char>) -> Seq<char> {
+    if p.len() == 0 { p } else { lowercase_seq(p[0]) + p.skip(1) }
+}
+pub open spec fn camel_spec(s: Seq<char>) -> Seq<char> { lower_first_spec(pascal_spec(s)) }
+
 pub open spec fn rule_field(c: RenameRule, s: Seq<char>) -> Seq<char> {
-    if c is LowerCase || c is SnakeCase { s } else { rule_field_other(c, s) }
+    if c is LowerCase || c is SnakeCase { s }
+    else if c is PascalCase { pascal_spec(s) }
+    else if c is CamelCase { camel_spec(s) }
+    else { rule_field_other(c, s) }
 }
 
 /// RENAME_RULES table of the dependency
@@ -58,9 +102,14 @@ pub open spec fn default_rule(s: Seq<char>) -> RenameRule {
 
 pub struct ParseError { pub unknown: String }
 
+// derived PartialEq of the field-less enum RenameRule is equality of variants
+pub assume_specification[ <RenameRule as PartialEq>::eq ](a: &RenameRule, b: &RenameRule) -> (r: bool)
+    ensures r == (*a == *b);
+
 impl RenameRule {
     #[verifier::external_body]
     pub fn apply_to_field(&self, field: &str) -> (r: String)
+        requires *self is CamelCase ==> camel_safe(field@),
         ensures r@ == rule_field(*self, field@),
     { unimplemented!() }
 
@@ -89,6 +138,9 @@ impl FieldContext {
 //@ RETURNS r
 //@ CONTRACT
 //@|    ensures r@ == rule_field(convention, field_name@),
+//@ OUTLINE `match pascal.chars().next() { Some(first) => first.to_lowercase().chain(pascal.chars().skip(1)).collect(), None => pascal, }` AS Self::lower_first(pascal)
+//@|pub fn lower_first(pascal: String) -> (r: String)
+//@|    ensures r@ == lower_first_spec(pascal@),
 //@ END
 
 //@ EXTRACT-FN file=src/generators/base/template_context.rs in="trait NamingContext" fn=compute_field_name props=C06
@@ -118,6 +170,155 @@ impl FieldContext {
 //@|        param_rename is None && command_rename_all is None ==> r@ == rule_field(default_rule(self.config.default_parameter_case@), param_name@),
 //@ END
 
+//@ EXTRACT-FN file=src/generators/base/template_context.rs in="trait NamingContext" fn=event_name_to_function props=C12,C01
+//@ RETURNS r
+//@ CONTRACT
+//@|    ensures r@ == "on"@ + pascal_spec(event_norm(event_name@)),
+//@ END
+
+//@ EXTRACT-FN file=src/generators/base/template_context.rs in="trait NamingContext" fn=compute_function_name props=C01
+//@ RETURNS r
+//@ CONTRACT
+//@|    requires rust_ident(name@),
+//@|    ensures
+//@|        r@ == camel_spec(name@),
+//@|        !js_reserved(r@),
+//@ END
+
+//@ EXTRACT-FN file=src/generators/base/template_context.rs in="trait NamingContext" fn=compute_type_name props=C01
+//@ RETURNS r
+//@ CONTRACT
+//@|    ensures r@ == pascal_spec(name@),
+//@ END
+
+}
+
+// ------------------------------------------------------------------ identifiers (C01, C12)
+pub open spec fn ident_char(c: char) -> bool { ascii_alnum(c) || c == '_' || c == '$' || (c as u32) >= 128 }
+
+/// a TypeScript identifier (ASCII rules; non-ASCII characters are taken to be identifier characters)
+pub open spec fn ts_ident(s: Seq<char>) -> bool {
+    s.len() > 0 && !ascii_digit(s[0]) && forall|i: int| 0 <= i < s.len() ==> ident_char(#[trigger] s[i])
+}
+
+/// a Rust identifier as the tool receives it from syn (raw prefix already stripped)
+pub open spec fn rust_ident(s: Seq<char>) -> bool {
+    s.len() > 0 && !ascii_digit(s[0]) && forall|i: int| 0 <= i < s.len() ==> (ascii_alnum(#[trigger] s[i]) || s[i] == '_' || (s[i] as u32) >= 128)
+}
+
+/// reserved words of JavaScript/TypeScript that are legal Rust identifiers
+pub open spec fn js_reserved(s: Seq<char>) -> bool {
+    s == "case"@ || s == "catch"@ || s == "class"@ || s == "debugger"@ || s == "default"@ || s == "delete"@
+    || s == "do"@ || s == "export"@ || s == "extends"@ || s == "finally"@ || s == "function"@ || s == "import"@
+    || s == "instanceof"@ || s == "new"@ || s == "null"@ || s == "switch"@ || s == "this"@ || s == "throw"@
+    || s == "typeof"@ || s == "var"@ || s == "void"@ || s == "with"@ || s == "implements"@ || s == "interface"@
+    || s == "package"@ || s == "private"@ || s == "protected"@ || s == "public"@ || s == "arguments"@ || s == "eval"@
+}
+
+/// characters Tauri allows in event names (ASCII part of `is_alphanumeric() || - / : _`)
+pub open spec fn tauri_event_char(c: char) -> bool { ascii_alnum(c) || c == '-' || c == '/' || c == ':' || c == '_' }
+pub open spec fn tauri_event_name(e: Seq<char>) -> bool {
+    e.len() > 0 && forall|i: int| 0 <= i < e.len() ==> tauri_event_char(#[trigger] e[i])
+}
+
+/// normalisation applied by event_name_to_function before PascalCase
+pub open spec fn event_norm(e: Seq<char>) -> Seq<char> {
+    replace_char(replace_char(replace_char(e, '-', "_"@), ':', "_"@), '/', "_"@)
+}
+
+pub open spec fn all_alnum_or_us(s: Seq<char>) -> bool { forall|i: int| 0 <= i < s.len() ==> (ascii_alnum(#[trigger] s[i]) || s[i] == '_') }
+pub open spec fn all_alnum(s: Seq<char>) -> bool { forall|i: int| 0 <= i < s.len() ==> ascii_alnum(#[trigger] s[i]) }
+
+proof fn lemma_replace_char_sep(s: Seq<char>, c: char)
+    requires forall|i: int| 0 <= i < s.len() ==> (tauri_event_char(#[trigger] s[i])),
+    ensures
+        forall|i: int| 0 <= i < replace_char(s, c, "_"@).len() ==> tauri_event_char(#[trigger] replace_char(s, c, "_"@)[i]) && replace_char(s, c, "_"@)[i] != c || c == '_',
+        forall|i: int| 0 <= i < replace_char(s, c, "_"@).len() ==> (#[trigger] replace_char(s, c, "_"@)[i] == '_' || s.contains(replace_char(s, c, "_"@)[i])),
+    decreases s.len(),
+{
+    reveal_strlit("_");
+    assert("_"@ =~= seq!['_']);
+    if s.len() > 0 {
+        assert forall|i: int| 0 <= i < s.drop_last().len() implies tauri_event_char(#[trigger] s.drop_last()[i]) by { assert(s.drop_last()[i] == s[i]); }
+        lemma_replace_char_sep(s.drop_last(), c);
+        let r0 = replace_char(s.drop_last(), c, "_"@);
+        let tail = if s.last() == c { "_"@ } else { seq![s.last()] };
+        let r = replace_char(s, c, "_"@);
+        assert(r == r0 + tail);
+        assert(tail.len() == 1);
+        assert forall|i: int| 0 <= i < r.len() implies (#[trigger] r[i] == '_' || s.contains(r[i])) by {
+            if i < r0.len() {
+                assert(r[i] == r0[i]);
+                if r0[i] != '_' {
+                    let j = choose|j: int| 0 <= j < s.drop_last().len() && s.drop_last()[j] == r0[i];
+                    assert(s[j] == r0[i]);
+                }
+            } else {
+                assert(r[i] == tail[0]);
+                if s.last() != c { assert(s[s.len() - 1] == r[i]); }
+            }
+        }
+        assert forall|i: int| 0 <= i < r.len() implies tauri_event_char(#[trigger] r[i]) && r[i] != c || c == '_' by {
+            if i < r0.len() { assert(r[i] == r0[i]); } else { assert(r[i] == tail[0]); }
+        }
+    }
+}
+
+proof fn lemma_pascal_alnum(s: Seq<char>, cap: bool)
+    requires all_alnum_or_us(s),
+    ensures all_alnum(pascal_from(s, cap)),
+    decreases s.len(),
+{
+    broadcast use axiom_ascii_case;
+    if s.len() > 0 {
+        assert forall|i: int| 0 <= i < s.skip(1).len() implies (ascii_alnum(#[trigger] s.skip(1)[i]) || s.skip(1)[i] == '_') by { assert(s.skip(1)[i] == s[i + 1]); }
+        lemma_pascal_alnum(s.skip(1), true);
+        lemma_pascal_alnum(s.skip(1), false);
+        assert(ascii_alnum(s[0]) || s[0] == '_');
+    }
+}
+
+//@ PROPS C12 C01
+/// C12/C01: every legal (ASCII) Tauri event name yields a legal TypeScript identifier
+pub proof fn lemma_C12_listener_name_is_an_identifier(e: Seq<char>)
+    requires tauri_event_name(e),
+    ensures ts_ident("on"@ + pascal_spec(event_norm(e))),
+{
+    reveal_strlit("on");
+    let s1 = replace_char(e, '-', "_"@);
+    lemma_replace_char_sep(e, '-');
+    let s2 = replace_char(s1, ':', "_"@);
+    lemma_replace_char_sep(s1, ':');
+    let s3 = replace_char(s2, '/', "_"@);
+    lemma_replace_char_sep(s2, '/');
+    assert forall|i: int| 0 <= i < s3.len() implies (ascii_alnum(#[trigger] s3[i]) || s3[i] == '_') by {
+        let ch = s3[i];
+        assert(tauri_event_char(ch) && ch != '/');
+        if ch != '_' {
+            assert(s2.contains(ch));
+            let j = choose|j: int| 0 <= j < s2.len() && s2[j] == ch;
+            assert(tauri_event_char(s2[j]) && s2[j] != ':');
+            assert(s1.contains(ch));
+            let k = choose|k: int| 0 <= k < s1.len() && s1[k] == ch;
+            assert(tauri_event_char(s1[k]) && s1[k] != '-');
+        }
+    }
+    lemma_pascal_alnum(s3, true);
+    let p = pascal_spec(event_norm(e));
+    let r = "on"@ + p;
+    assert("on"@ =~= seq!['o', 'n']);
+    assert(r[0] == 'o');
+    assert forall|i: int| 0 <= i < r.len() implies ident_char(#[trigger] r[i]) by {
+        if i >= 2 { assert(r[i] == p[i - 2]); }
+    }
+}
+
+//@ PROPS C12
+/// C12: "under a ... unique function identifier": distinct legal event names get distinct listener names
+pub proof fn lemma_C12_listener_names_are_unique(e1: Seq<char>, e2: Seq<char>)
+    requires tauri_event_name(e1), tauri_event_name(e2), e1 != e2,
+    ensures "on"@ + pascal_spec(event_norm(e1)) != "on"@ + pascal_spec(event_norm(e2)),
+{
 }
 
 //@ PROPS C06
